@@ -38,6 +38,85 @@ def natToDec (n : Nat) : Str := natToDecF (n + 1) n
 
 def lowerAscii (b : UInt8) : UInt8 := if 65 ≤ b ∧ b ≤ 90 then b + 32 else b
 
+/-! ## `prettyPlaceName` -/
+
+/-- Go's `strings.Replace(s, old, new, -1)` for non-empty `old`: leftmost, non-overlapping.
+    `skip` counts the bytes of a match still to be dropped (structural recursion on `s`). -/
+def replaceGo (old new : Str) : Nat → Str → Str
+  | _, [] => []
+  | k+1, _ :: t => replaceGo old new k t
+  | 0, b :: t =>
+    if isPrefix old (b :: t) then new ++ replaceGo old new (old.length - 1) t
+    else b :: replaceGo old new 0 t
+
+def replaceAll (old new s : Str) : Str := if old.isEmpty then s else replaceGo old new 0 s
+
+def isAsciiSpace (b : UInt8) : Bool :=
+  b == 9 || b == 10 || b == 11 || b == 12 || b == 13 || b == 32
+
+/-- U+0085, U+00A0 -/
+def isSpace2 (a b : UInt8) : Bool := a == 0xC2 && (b == 0x85 || b == 0xA0)
+
+/-- U+1680, U+2000..U+200A, U+2028, U+2029, U+202F, U+205F, U+3000 -/
+def isSpace3 (a b c : UInt8) : Bool :=
+  (a == 0xE1 && b == 0x9A && c == 0x80) ||
+  (a == 0xE2 && b == 0x80 && ((0x80 ≤ c.toNat && c.toNat ≤ 0x8A) || c == 0xA8 || c == 0xA9 || c == 0xAF)) ||
+  (a == 0xE2 && b == 0x81 && c == 0x9F) ||
+  (a == 0xE3 && b == 0x80 && c == 0x80)
+
+/-- the rest after one leading white-space rune (`unicode.IsSpace`, UTF-8), if there is one -/
+def dropSpaceRune : Str → Option Str
+  | [] => none
+  | a :: r =>
+    if isAsciiSpace a then some r else
+    match r with
+    | [] => none
+    | b :: r' =>
+      if isSpace2 a b then some r' else
+      match r' with
+      | [] => none
+      | c :: r'' => if isSpace3 a b c then some r'' else none
+
+/-- the same on the reversed string (trailing white-space rune) -/
+def dropSpaceRuneRev : Str → Option Str
+  | [] => none
+  | c :: r =>
+    if isAsciiSpace c then some r else
+    match r with
+    | [] => none
+    | b :: r' =>
+      if isSpace2 b c then some r' else
+      match r' with
+      | [] => none
+      | a :: r'' => if isSpace3 a b c then some r'' else none
+
+def trimFuel (f : Str → Option Str) : Nat → Str → Str
+  | 0, s => s
+  | n + 1, s => match f s with | some r => trimFuel f n r | none => s
+
+/-- `strings.TrimSpace` -/
+def trimSpace (s : Str) : Str :=
+  let l := trimFuel dropSpaceRune s.length s
+  (trimFuel dropSpaceRuneRev l.length l.reverse).reverse
+
+/-- `strings.Trim(s, cutset)` for an ASCII cutset -/
+def trimCutset (cut : UInt8 → Bool) (s : Str) : Str :=
+  ((s.dropWhile cut).reverse.dropWhile cut).reverse
+
+/-- `prettyPlaceName` (html/places.go): `,,` → `,` twice, `,` → `, `, trim commas and spaces,
+    trim white space -/
+def prettyPlaceName (s : Str) : Str :=
+  let s := replaceAll [44, 44] [44] s
+  let s := replaceAll [44, 44] [44] s
+  let s := replaceAll [44] [44, 32] s
+  let s := trimCutset (fun b => b == 44 || b == 32) s
+  trimSpace s
+
+/-- the name `Publisher.Places()` lists a PLAC value under: its pretty name, `(none)` if empty -/
+def prettyOf (v : Str) : Str :=
+  let p := prettyPlaceName v
+  if p.isEmpty then bs!"(none)" else p
+
 /-! ## keys -/
 
 /-- the byte class `[a-z_0-9-]` as probed from the code -/
@@ -88,11 +167,47 @@ def getIndividuals (places : List Str) : List Str → List Str → List Str
 /-- keys of the individuals whose `Name().String()` are `names`, given the place keys passed -/
 def individualKeys (names places : List Str) : List Str := getIndividuals places [] names
 
-/-- `Publisher.Places()`: the key of a pretty place name; the first pretty name of a key names the
-    page.  Result: (key, pretty name) in first-occurrence order. -/
-def placeEntries : List Str → List (Str × Str)
+/-- drops the entries whose flag is set (`hs` shorter than `ks`: the rest is kept) -/
+def zipFilter : List Str → List Bool → List Str
+  | k :: ks, h :: hs => if h then zipFilter ks hs else k :: zipFilter ks hs
+  | ks, [] => ks
+  | [], _ => []
+
+/-- the names `getIndividuals(document, placesMap, visibility)` hands a key to: only the people
+    that get a page (regenerated flag; the older code keyed everybody).  `hidden` = living and
+    visibility ≠ show, one flag per individual. -/
+def keyedNames (names : List Str) (hidden : List Bool) : List Str :=
+  if Generated.keysSkipHidden then zipFilter names hidden else names
+
+/-- the position of individual `i` among the people that are given a key -/
+def keyRank (hidden : List Bool) (i : Nat) : Nat :=
+  if Generated.keysSkipHidden then ((hidden.take i).filter (fun h => !h)).length else i
+
+/-- the keys of all individuals in document order, `none` for the hidden ones: one definition for
+    every model that needs page names (C17's page model included) -/
+def assignKeys : List Str → List Bool → List (Option Str)
+  | ks, true :: hs => none :: assignKeys (if Generated.keysSkipHidden then ks else ks.drop 1) hs
+  | k :: ks, false :: hs => some k :: assignKeys ks hs
+  | [], false :: hs => none :: assignKeys [] hs
+  | _, [] => []
+
+/-- `getIndividuals` per individual: the key of each person who gets a page -/
+def individualKeysV (names : List Str) (hidden : List Bool) (places : List Str) : List (Option Str) :=
+  assignKeys (individualKeys (keyedNames names hidden) places) hidden
+
+/-- the key `Publisher.Places()` gives a pretty place name: its sanitized form, followed by the
+    first number that keeps it off the reserved keys (fixed pages, source pages) -/
+def placeKey (reserved : List Str) (p : Str) : Str :=
+  (uniqueKey [] reserved (sanitize p)).getD (sanitize p)
+
+/-- `Publisher.Places()`: the first pretty name of a key names the page.
+    Result: (key, pretty name) in first-occurrence order. -/
+def placeEntriesR (reserved : List Str) : List Str → List (Str × Str)
   | [] => []
-  | p :: ps => (sanitize p, p) :: (placeEntries ps).filter (fun kv => kv.1 != sanitize p)
+  | p :: ps => (placeKey reserved p, p) :: (placeEntriesR reserved ps).filter (fun kv => kv.1 != placeKey reserved p)
+
+/-- … without reserved keys (the code before the reserved-page-names repair) -/
+def placeEntries (ps : List Str) : List (Str × Str) := placeEntriesR [] ps
 
 def html : Str := Generated.pageKeySuffix
 
@@ -109,6 +224,12 @@ def pageIndividual (names places : List Str) (hidden : Bool) (i : Nat) : Str :=
   match (individualKeys names places)[i]? with
   | some k => k ++ html
   | none => [35]
+
+/-- `PageIndividual(document, individual, visibility, placesMap)` for the i-th individual of a
+    document whose hidden flags are `hidden`: `#` for a hidden person, else the key
+    `getIndividuals(document, placesMap, visibility)` gave it -/
+def pageIndividualV (names : List Str) (hidden : List Bool) (places : List Str) (i : Nat) : Str :=
+  pageIndividual (keyedNames names hidden) places (hidden.getD i false) (keyRank hidden i)
 
 /-- `PageIndividual` as the Go code runs it: it ranges over the map `GetIndividuals` returned, in
     whatever order the runtime picks (`order` = the entries (key, individual) in that order), and
@@ -130,10 +251,40 @@ def pagePlace (pretty : Str) (places : List (Str × Str)) : Str :=
   | some kv => kv.1 ++ html
   | none => [35]
 
-/-- the key `PageSource` makes of a pointer: byte by byte as probed from the code -/
-def sourceKey (ptr : Str) : Str := ptr.flatMap (fun b => Generated.sourceKeyByte.getD b.toNat [b])
+/-- the pages that always have the same name (`isFixedPageKey` compares with these) -/
+def fixedNames : List Str :=
+  [Generated.pagePlacesName, Generated.pageFamiliesName, Generated.pageSurnamesName,
+   Generated.pageSourcesName, Generated.pageStatisticsName, Generated.pageIndividualsSymbol]
+  ++ (List.range 26).map (fun i => pageIndividuals (UInt8.ofNat (97 + i)))
+
+/-- … without the `.html` suffix -/
+def fixedKeys : List Str := fixedNames.map (fun n => n.take (n.length - html.length))
+
+/-- `isFixedPageKey` -/
+def isFixedKey (k : Str) : Bool := fixedNames.contains (k ++ html)
+
+def hexDigit (d : Nat) : UInt8 := if d < 10 then UInt8.ofNat (48 + d) else UInt8.ofNat (87 + d)
+
+/-- `fmt.Sprintf("_%02x%s", key[0], key[1:])` -/
+def escapeFirst : Str → Str
+  | [] => []
+  | b :: t => 95 :: hexDigit (b.toNat / 16) :: hexDigit (b.toNat % 16) :: t
+
+/-- the pointer byte by byte as probed from the code -/
+def sourceKeyRaw (ptr : Str) : Str := ptr.flatMap (fun b => Generated.sourceKeyByte.getD b.toNat [b])
+
+/-- the key `PageSource` makes of a pointer; a key that would name a fixed page gets its first
+    letter escaped (regenerated flag) -/
+def sourceKey (ptr : Str) : Str :=
+  let raw := sourceKeyRaw ptr
+  if Generated.sourceKeyEscapesFixed && isFixedKey raw then escapeFirst raw else raw
 
 def pageSource (ptr : Str) : Str := sourceKey ptr ++ Generated.pageSourceSuffix
+
+/-- the keys `getUniqueKey` keeps individuals and places off (regenerated flag): the fixed page
+    names and the keys of the source pages of the document (`ptrs` = pointers of its sources) -/
+def reservedKeys (ptrs : List Str) : List Str :=
+  if Generated.keysAvoidReserved then fixedKeys ++ ptrs.map sourceKey else []
 
 /-! ## index letters and surname links -/
 
@@ -177,7 +328,7 @@ structure Site where
   names : List Str                 -- Name().String() of every individual, document order
   hidden : List Bool               -- living and visibility ≠ show
   letters : List UInt8             -- Publisher.indexLetters
-  places : List Str                -- pretty names of the published places, document order
+  places : List Str                -- PLAC values of the published places, document order
   sourcePtrs : List Str            -- pointers of the SOUR records, document order
   showIndividuals : Bool
   showPlaces : Bool
@@ -186,28 +337,34 @@ structure Site where
   showSources : Bool
   showStatistics : Bool
 
-/-- the keys of `Publisher.Places()` -/
-def Site.placeKeys (s : Site) : List Str := (placeEntries s.places).map (·.1)
+/-- the keys individuals and places keep off (regenerated flag): the fixed page names and the keys
+    of the source pages -/
+def Site.reserved (s : Site) : List Str := reservedKeys s.sourcePtrs
 
-/-- the place keys `NewPublisher` hands to `GetIndividuals` when it names the individual files:
-    the keys of `Places()` when places are published, as the regenerated flag says (the old code
-    passed nil) -/
+/-- `Publisher.Places()`: key ↦ pretty name -/
+def Site.placeEntries (s : Site) : List (Str × Str) := placeEntriesR s.reserved (s.places.map prettyOf)
+
+/-- the keys of `Publisher.Places()` -/
+def Site.placeKeys (s : Site) : List Str := s.placeEntries.map (·.1)
+
+/-- the keys `NewPublisher` hands to `GetIndividuals` when it names the individual files: the keys
+    of `Places()` when places are published, as the regenerated flag says (the old code passed
+    nil), and the reserved keys -/
 def Site.keyPlaces (s : Site) : List Str :=
-  if Generated.individualsKeyedWithPlaces && s.showPlaces then s.placeKeys else []
+  (if Generated.individualsKeyedWithPlaces && s.showPlaces then s.placeKeys else []) ++ s.reserved
 
 /-- the place keys held by the pages of a group when they compute links to individuals:
     `publisher.placesMap` at the time the page is constructed.  `late` = constructed after
     `sendPlaceFiles` called `Places()` (family, surname, source, statistics and place pages). -/
 def Site.linkPlaces (s : Site) (late : Bool) : List Str :=
-  if s.showPlaces && (Generated.individualsKeyedWithPlaces || late) then s.placeKeys else []
+  (if s.showPlaces && (Generated.individualsKeyedWithPlaces || late) then s.placeKeys else []) ++ s.reserved
 
-def zipFilter : List Str → List Bool → List Str
-  | k :: ks, h :: hs => if h then zipFilter ks hs else k :: zipFilter ks hs
-  | ks, [] => ks
-  | [], _ => []
+/-- the keys of the individual pages that are written: the keyed people who are not hidden -/
+def Site.individualPageKeys (s : Site) : List Str :=
+  if Generated.keysSkipHidden then individualKeys (keyedNames s.names s.hidden) s.keyPlaces
+  else zipFilter (individualKeys s.names s.keyPlaces) s.hidden
 
-def Site.individualFiles (s : Site) : List Str :=
-  (zipFilter (individualKeys s.names s.keyPlaces) s.hidden).map (· ++ html)
+def Site.individualFiles (s : Site) : List Str := s.individualPageKeys.map (· ++ html)
 
 def Site.placeFiles (s : Site) : List Str := s.placeKeys.map (· ++ html)
 
